@@ -13,9 +13,9 @@ import (
 	"verifharness/core"
 )
 
-const none = 7777    // NONE of the design configurations
-const odd = 777777   // ODD: a value spelled in a way RFC 7950 does not allow
-const far = 5000     // a literal of 64-bit magnitude or beyond
+const none = 7777  // NONE of the design configurations
+const odd = 777777 // ODD: a value spelled in a way RFC 7950 does not allow
+const far = 5000   // a literal of 64-bit magnitude or beyond
 
 // oddSpellings of a small in-range value: all must be refused.
 var oddSpellings = []string{"0x1", "+1", "1_0", "0b1", "0o7", "1.0", "1e1", "0x", "१"}
@@ -27,6 +27,7 @@ func farLiteral(v int64, i int) string {
 	}
 	return []string{"-18446744073709551609", "-18446744073709551611", "-9223372036854775809", "-36893488147419103225"}[i%4]
 }
+
 const noneB = 999999 // NONE of the trace configuration
 
 func init() {
